@@ -60,6 +60,15 @@ CLAIMS = {
  "C17": ("sibling cross-check of serialiser and parser of each structure (extracted field sequences with destination fields), width/shape checks of the Append/Extract/Serialize primitives, index-order agreement of SMP TLVs, length-equals-content term checks at every TLV construction, grammar agreement of the key-file writer and reader, integer-narrowing audit of lengths",
          "Structural necessary conditions of round trips: writer and reader of every structure agree on kinds, order, widths and destination fields; lengths are the lengths of what is written; MPIs go through big.Int.Bytes (minimal form); key-file writer and reader share list heads and parameter names and atoms are read verbatim. Two length narrowings that wrap for oversized caller input (D20) are listed known findings. Value-level equality for all inputs is not decided.",
          "DESIGN.md §4/C17"),
+ "C03": ("three-valued path enumeration of Send's dispatch and of the plaintext policy branch, must-pass-through of the encrypted-state guard for every call of the data message generator, def-use audit of the text parameter (only into the enciphered structure and the resend queue), CFG must-pass of the counter increment, who-may-call rules for the emitters",
+         "Structural necessary conditions: no path of Send hands the text to the wire in finished state or under required encryption; the generator works only in encrypted state, enciphers the text under the session's sending AES key with a counter consumed per message, and keeps the text only in the resend queue; queued texts leave only through the generator. Unreadability of AES-CTR output and user-supplied transformers are not decided.",
+         "DESIGN.md §4/C03"),
+ "C04": ("value-term checks of the ratchet bookkeeping against the specification's formulas on the sending and the receiving side, CFG ordering of the rotations, who-may-write for the key generations, decision table of the key-id lookup, fragmentation arithmetic and receiver tables (shared with C14)",
+         "Necessary conditions only: every step of the DH ratchet (ids, keys, counters, rotation guards and order, previous generation kept, NUL split) is the specified step. The property itself — exactly-once in-order delivery over all interleavings of two parties — is an exploration question and is not decided by static analysis.",
+         "DESIGN.md §4/C04"),
+ "C08": ("typestate wipe-before-overwrite/drop over access paths with wipe effects (dominance, moved-value and freshness idioms, caller obligations for the allocation helper), field-coverage check of every wipe() method against its struct definition, body checks of the wipe primitives, lifecycle ordering rules",
+         "Structural necessary conditions of forward secrecy in memory: locations holding drawn secrets are wiped (or moved, or fresh) before being overwritten or dropped; wipe methods cover every secret-capable field; End/disconnect/completion/restart wipe in the specified order; sent text is kept only in the (replaced, nil-cleared) resend queue and local copies are wiped. GC/big.Int internals, derived per-message keys and SMP exponents are outside the claim.",
+         "DESIGN.md §4/C08"),
 }
 
 NA = {}
